@@ -1486,7 +1486,7 @@ class Exec:
             variants = (True, False) if sp.split_first else (None,)
             for first in variants:
                 h = self.havoc_for_loop(s0, n, sp, n.body + [n.target], bool(first))
-                if isinstance(src, SeqIter):
+                if hasattr(src, 'havoc_index'):
                     src.havoc_index(h)
                 h.assume(sp.inv(h, self))
                 if first is True and sp.first_cond is not None:
@@ -1823,6 +1823,15 @@ class ZipVal(Obj):
 
     def havoc(self, ex, st):
         pass
+
+    def havoc_index(self, st):
+        i = fresh('zidx', z3.IntSort())
+        n = z3.If(z3.Length(self.a) <= z3.Length(self.b), z3.Length(self.a), z3.Length(self.b))
+        st.ghost[self.key] = i
+        st.assume(i >= 0, i <= n)
+
+    def idx(self, st):
+        return st.ghost[self.key]
 
     def pull(self, ex, st, node):
         if self.key not in st.ghost:
